@@ -101,7 +101,8 @@ def main(tier='quick'):
                        'grid': grid, 'roles': ['acceptor', 'requester', 'acceptor with the maximum-length sub-item not first'],
                        'pdata_pdus_measured': sum(len(c['pdulens']) for c in cases),
                        'samples': [{'case': metas[i], 'judged': cases[i]} for i in (3, len(cases) // 2)], 'exhaustive': True},
-          'assumptions': ['grid of boundary values, exhaustive over pairs', 'message sizes capped at 70000 bytes for very large limits']}
+          'assumptions': ['grid of boundary values, exhaustive over pairs', 'message sizes capped at 70000 bytes for very large limits',
+                          'announced values 1..6 are outside the grid: a P-DATA-TF PDU needs 6 bytes of PDV header before the first byte of a fragment, so no implementation can send anything under such a maximum (what the provider does then - an orderly abort - is decided under C12, finding F27)']}
     return v.finish(ev)
 
 
